@@ -341,6 +341,15 @@ func runC01(c C01Case) (st Stats, err error) {
 			case "fifo":
 				m.FIFO = true
 				s.SetFIFO(true)
+			case "unfifo":
+				// "once you go FIFO, you cannot go back": SetFIFO(false) never changes the model
+				s.SetFIFO(false)
+				if m.FIFO {
+					st.Class("setfifo-false-after-fifo")
+				}
+				if s.IsFIFO() != m.FIFO {
+					v = violf("unfifo/isfifo", "after SetFIFO(false) IsFIFO()=%v, the stack had FIFO mode %v before (the switch is one-way)", s.IsFIFO(), m.FIFO)
+				}
 			}
 		})
 		if p != "" {
@@ -403,7 +412,7 @@ func genC01(t *rapid.T, tier Tier) C01Case {
 		c.Cap = rapid.SampledFrom([]int{255, 256, 257, 4095, 4096, 4097, 5000}).Draw(t, "hugecap")
 		maxOps = 4
 	}
-	ops := []string{"push", "push", "push", "pop", "insert", "insert", "remove", "replace", "swap", "reverse", "reset", "fifo", "popn"}
+	ops := []string{"push", "push", "push", "pop", "insert", "insert", "remove", "replace", "swap", "reverse", "reset", "fifo", "popn", "unfifo"}
 	n := rapid.IntRange(1, maxOps).Draw(t, "nops")
 	if hugeCap {
 		fill := C01Op{Op: "push"}
